@@ -39,11 +39,18 @@ type c50Plan struct {
 	Nodes   []c50Node `json:"nodes"`
 	Queries int       `json:"queries"`
 	Rounds  int       `json:"rounds"`
+	// capacity of the measurement history per gateway (the client uses 20): with a small capacity
+	// and many rounds the history wraps around several times, so old samples that are no longer
+	// recent sit next to fresh ones
+	Capacity int `json:"capacity"`
 }
 
 func genC50(seed uint64) *c50Plan {
 	r := simrt.NewRand(simrt.Mix(seed, 50))
-	p := &c50Plan{Queries: 1 + r.Intn(3), Rounds: 1 + r.Intn(3)}
+	p := &c50Plan{Queries: 1 + r.Intn(3), Rounds: 1 + r.Intn(3), Capacity: pick(r, 1, 2, 3, 5, 20)}
+	if p.Capacity < 20 && r.Intn(2) == 0 {
+		p.Rounds = 4 + r.Intn(8)
+	}
 	n := r.Intn(7)
 	base := []float64{1e6, 5e6, 5e6, 20e6, 80e6, 300e6}
 	for i := 0; i < n; i++ {
@@ -59,7 +66,11 @@ func genC50(seed uint64) *c50Plan {
 			}
 		}
 		if r.Intn(3) != 0 {
-			for k := 0; k < 1+r.Intn(4); k++ {
+			nf := 1 + r.Intn(4)
+			if nf > p.Capacity {
+				nf = p.Capacity // a round's samples always fit: which older ones are retained is not the oracle's business
+			}
+			for k := 0; k < nf; k++ {
 				nd.Fresh = append(nd.Fresh, base[r.Intn(len(base))]*(1+float64(r.Intn(3))/10))
 			}
 		}
@@ -102,7 +113,11 @@ func c50Body(res *hcommon.RunResult, p *c50Plan) {
 	ctx, cancel := context.WithCancel(context.Background())
 	defer cancel()
 	simfs.Cur = simfs.New()
-	rec := rtt.NewInstrumentation(20)
+	capacity := p.Capacity
+	if capacity <= 0 {
+		capacity = 20
+	}
+	rec := rtt.NewInstrumentation(capacity)
 	cl := tc.VerifNewClient(ctx, &tc.Config{Version: 2}, &fakeTunnel{calls: map[string]int{}}, rec, "root.example.com")
 	nodes := map[string]*protocol.Node{}
 	for i, n := range p.Nodes {
